@@ -177,7 +177,15 @@ def d3_selectors_read_only_flag(ctx):
             ctx.chk.missing("D3", "single apply_stall_gate call in select_connection_idx", "found %d" % len(g))
 
 
-RULES = [d1_noninterference, d2_off_clears, d3_selectors_read_only_flag]
+def d2b_every_pass_reaches_a_flag_loop(ctx):
+    """"guard off clears every flag": the clearing loop is not only correct but reached - no path through apply_stall_gate returns
+    without running one of the two whole-slice loops that store the flag (guard-off clear / guard-on recompute), whatever the pool
+    looks like.  C03.D2b, decided once and reported under both properties."""
+    from . import C03
+    C03.d2b_flag_never_stale(ctx)
+
+
+RULES = [d1_noninterference, d2_off_clears, d2b_every_pass_reaches_a_flag_loop, d3_selectors_read_only_flag]
 
 
 def run(ctx):
